@@ -200,6 +200,12 @@ def run_reuse(case, res):
     solver.calc_sts_g_functions(bhe)
     for step in case["steps"]:
         res["evals"] += 1
+        if step.get("other_object"):
+            # the next request comes with ANOTHER exchanger object (as GHE.simulate hands over a freshly built equivalent tube)
+            bhe = copy.deepcopy(bhe)
+            if "mdot" in step:
+                bhe = build(dict(cfg, H=float(bhe.b.H), mdot=step["mdot"]))
+                bhe.soil.ugt = step.get("ugt", bhe.soil.ugt)
         if "H" in step:
             bhe.b.H = step["H"]
         if "ugt" in step:
@@ -276,6 +282,8 @@ def main(run: core.Run, only=None):
     base = {"rb": 0.075, "pipe": [0.0136, 0.0167], "H": 100.0, "k_g": 1.0, "k_s": 2.0, "rc_g": 3.9e6, "rc_s": 2.3e6, "fluid": ["Water", 0.0], "mdot": 0.3}
     reuse = [{"cfg": dict(base, **d), "steps": st} for d in ({}, {"H": 60.0, "mdot": 0.05}, {"rb": 0.12, "k_s": 4.0})
              for st in ([{"H": 60.0}, {"H": 135.0}, {"H": 60.0}], [{"ugt": 11.0}, {"ugt": 25.0}], [{"H": 80.0, "ugt": 5.0}, {"H": 300.0}, {"ugt": 18.3}])]
+    reuse += [{"cfg": dict(base, **d), "steps": st} for d in ({}, {"rb": 0.12, "k_s": 4.0})
+              for st in ([{"H": 60.0, "other_object": True}, {"H": 135.0, "other_object": True}], [{"mdot": 0.05, "other_object": True}, {"mdot": 1.0, "H": 80.0, "other_object": True}])]
     run.drive(reuse, family="solver-reuse")
     return run.finish(
         rule="full factorial lattice (borehole radius x pipe x H x k_g x k_s x rho*c_g x rho*c_s x fluid x flow); one evaluation = one "
